@@ -119,7 +119,8 @@ def gen_layout(rng, cfg, need_action_leds=True):
 def gen_cfg(rng, actions=None, n_maps=None):
     acts = list(STATE_ACTIONS) + [a for a in ("cc_learning", "mapping", "channel") if rng.random() < 0.3]
     cfg = devgen.gen_config(rng, n_maps=n_maps, n_keys=rng.randint(4, 10), actions=acts if actions is None else actions,
-                            with_exit=rng.random() < 0.25, defaults=False)
+                            with_exit=rng.random() < 0.25, defaults=False,
+                            double_bound=False)   # a key that is both an action key and a note key has two colours to show: outside C17's statement
     cfg["octave"] = rng.choice([0, 0, 0, 1, -1, 2, -3, 4])
     cfg["semitone"] = rng.choice([0, 0, 0, 1, -1, 5, -7])
     cfg["channel"] = rng.choice([1, 1, 1, 2, 9, 10, 16])
